@@ -49,7 +49,40 @@ func parentPausedAndAcknowledged(r *Runner, pv *PassView) (map[string]any, bool)
 	if !has || c.ObservedGeneration != engine.Generation(parent) {
 		return nil, false
 	}
-	return parent, true
+	// ... and the ObjectSet controller has completed a pass over the paused parent since the phase object (last) became
+	// unpaused: a phase object somebody unpaused directly (or re-created) is only the ObjectSet controller's business
+	// from its next pass on; until then the phase controller rightly follows what the phase object says.
+	tr := r.W.Store.Trace
+	unpausedAt := -1
+	for i := pv.P.FirstSeq - 1; i >= 0 && i < len(tr); i-- {
+		c := tr[i]
+		if c.Key != pv.OwnerKey || !c.IsWrite() || c.DryRun || !c.Changed() || c.Post == nil {
+			continue
+		}
+		if p, _ := asMap(c.Post["spec"])["paused"].(bool); p {
+			break // paused before that: the phase we look at would be paused
+		}
+		pre, _ := asMap(asMap(c.Pre)["spec"])["paused"].(bool)
+		if c.Pre == nil || pre {
+			unpausedAt = i
+			break
+		}
+	}
+	if unpausedAt < 0 {
+		return nil, false
+	}
+	for _, p2 := range r.W.Passes {
+		if !isSetController(p2.Controller) || p2.Crashed || p2.Err != "" || p2.FirstSeq <= unpausedAt || p2.LastSeq > pv.P.FirstSeq {
+			continue
+		}
+		if p2.Req.Name != pk.Name || p2.Req.Namespace != pk.Namespace {
+			continue
+		}
+		if at := r.StateAt(pk, p2.FirstSeq); at != nil && engine.UID(at) == cr.UID && OwnerPaused(at) && !OwnerDeleting(at) && !OwnerArchived(at) {
+			return parent, true
+		}
+	}
+	return nil, false
 }
 
 func (m *C09Monitor) afterSetPass(r *Runner, pv *PassView) error {
